@@ -1,9 +1,9 @@
 package main
 
 import (
-	"sort"
 	"fmt"
 	"math/rand"
+	"sort"
 	"strings"
 )
 
